@@ -92,6 +92,36 @@ Theorem C06_gauge_invariance_is_the_requirement : forall (F : fieldType) n (Y G 
 Proof. exact gauge_invariance_gives_requirement. Qed.
 Print Assumptions C06_gauge_invariance_is_the_requirement.
 
+(* T6: the IMPLICIT path (symeig_torchfcn.backward with idx_degen) when kept eigenvalues COINCIDE - partial spectrum, with M,
+   k kept columns, any size.  `mask` is the degeneracy map on the kept columns (reflexive, symmetric, relating only columns with
+   equal eigenvalues); the cotangents meet the requirement the code tests in debug mode (X^T G symmetric on the masked pairs).
+   With  b_i = g_i - sum_j (D o X^T G)_ji M x_j,  (A - e_i M) v_i = - b_i,  w_i = v_i - sum_j (D o X^T M V)_ji x_j,
+   accA_i = ge_i x_i + w_i  and  accM_i = - ge_i e_i x_i - e_i w_i - 1/2 sum_j (D o X^T G)_ji x_j  - exactly the code, including
+   the coupled parallel term of fix F29 - the accumulated cotangents reproduce  sum_i <g_i, dx_i> + ge_i de_i  for EVERY tangent
+   dA, dM and EVERY differentiable choice of the basis inside the degenerate subspaces. *)
+Theorem C06_eigpairs_backward_adjoint_degenerate :
+  forall (R : comRingType) (D : derivation R) n k (A M : 'M[R]_n) (x : 'I_k -> 'cV[R]_n) (e : 'I_k -> R),
+  A^T = A -> M^T = M -> (forall i, A *m x i = e i *: (M *m x i)) ->
+  (forall i j, dot (x i) (M *m x j) = (i == j)%:R) ->
+  forall half : R, half + half = 1 ->
+  forall mask : rel 'I_k, (forall i, mask i i) -> (forall i j, mask i j = mask j i) -> (forall i j, mask i j -> e i = e j) ->
+  forall (g v : 'I_k -> 'cV[R]_n) (ge : 'I_k -> R),
+  (forall i j, mask i j -> dot (x i) (g j) = dot (x j) (g i)) ->
+  let c := fun j i : 'I_k => if mask j i then dot (x j) (g i) else 0 in
+  let b := fun i => g i - \sum_j c j i *: (M *m x j) in
+  (forall i, A *m v i - e i *: (M *m v i) = - b i) ->
+  let mv := fun j i : 'I_k => if mask j i then dot (x j) (M *m v i) else 0 in
+  let w := fun i => v i - \sum_j mv j i *: x j in
+  let accA := fun i => ge i *: x i + w i in
+  let accM := fun i => - (ge i * e i) *: x i - e i *: w i - half *: \sum_j c j i *: x j in
+  \sum_i (dot (g i) (dmx D (x i)) + ge i * D (e i)) =
+  \sum_i (dot (accA i) (dmx D A *m x i) + dot (accM i) (dmx D M *m x i)).
+Proof.
+move=> R D n k A M x e HA HM He Ho half Hh mask Hr Hs Hd g v ge Hq c b Hv mv w accA accM.
+exact: (@eigpairs_backward_adjoint_degenerate R D n k A M x e HA HM He Ho half Hh mask Hr Hs Hd g v ge Hq Hv).
+Qed.
+Print Assumptions C06_eigpairs_backward_adjoint_degenerate.
+
 (* non-vacuity: a genuinely degenerate spectrum (A = 1, e = (1, 1)) with the full mask meets every hypothesis of T5 *)
 Example C06_degenerate_hypotheses_satisfiable :
   let A : 'M[rat]_2 := 1%:M in let Y : 'M[rat]_2 := 1%:M in let e : 'rV[rat]_2 := \row_i 1 in
